@@ -1,2 +1,7 @@
 import TephraProps.C04
-#print axioms Tephra.Props.C04_raw_tiles
+#print axioms Tephra.Props.C04_iter
+#print axioms Tephra.Props.C04_iter_setFilter
+#print axioms Tephra.Props.C04_iter_withFilter
+#print axioms Tephra.Props.C04_tiles
+#print axioms Tephra.Props.C04_fuel
+#print axioms Tephra.Props.exEnv_ok
